@@ -112,6 +112,16 @@ theorem tryFromVec_complete (x : List F64) :
       List.any_eq_true.mpr ⟨.ninf, h, rfl⟩
     simp [tryFromVec, h1, h2]
 
+/-- Acceptance by the multi-objective constructor is exactly legality of every coordinate; *which*
+error a vector with several illegal coordinates is rejected with is not part of the property. -/
+theorem tryFromVec_ok_iff_legal (x : List F64) : (∃ v, tryFromVec x = .ok v) ↔ legalVec x = true := by
+  constructor
+  · rintro ⟨v, h⟩
+    obtain ⟨h1, h2⟩ := tryFromVec_sound x v h
+    subst h1; exact h2
+  · intro h
+    exact ⟨x, (tryFromVec_complete x).1 h⟩
+
 /-! ### single objectives: a total order that is the numeric order -/
 
 /-- On legal values `partial_cmp` never answers `None`, so the `unwrap` in `Ord::cmp` cannot fail. -/
